@@ -142,8 +142,11 @@ def parseObs (t : String) : Option Obs :=
   else none
 
 /-- evaluate every property scanner on a trace; returns the names of those that fail -/
-def verdict (tr : List Obs) : List String :=
-  let devs := (tr.filterMap fun o => match o with | .call _ _ (some d) _ _ _ _ => some d | _ => none).eraseDups
+def verdict (tr : List Obs) (skip : List Nat := []) : List String :=
+  -- `skip`: device names registered again while a previous incarnation was still live — outside the
+  -- hypothesis `hone` of the C04 theorems (the property's own proviso), so their scanners say nothing
+  let devs := ((tr.filterMap fun o => match o with | .call _ _ (some d) _ _ _ _ => some d | _ => none).eraseDups).filter
+    fun d => !skip.contains d
   (if seqOk none tr then [] else ["C02:seqOk"]) ++
   (if nbirthBdOk none tr then [] else ["C03:nbirthBdOk"]) ++
   (if willChainOk none false false tr then [] else ["C03:willChainOk"]) ++
@@ -158,6 +161,7 @@ structure EonD where
   trace : List Obs := []           -- the observed trace of the case so far (reversed)
   sts : List St := [Eon.init 0]    -- every model state consistent with the observations so far
   users : Nat := 0                 -- number of user calls issued so far
+  overlap : List Nat := []         -- names re-registered while a previous incarnation was live (C04's proviso fails)
 
 def parsePubMode : String → Option Bool
   | "try" => some true | "trysort" => some true | "blk" => some false | "blksort" => some false | _ => none
@@ -235,7 +239,7 @@ def stepEon (d : EonD) (ws : List String) : EonD × String :=
   match req with
   | ["verdict"] =>
     -- the property scanners of `Model/EonSpec` evaluated on the observed trace of this case
-    let v := verdict d.trace.reverse
+    let v := verdict d.trace.reverse d.overlap
     (d, if v.isEmpty then "ok" else "scanner-fails " ++ joinWith "," v)
   | "new" :: rest =>
     match (rest.findSome? fun w => if w.startsWith "cd=" then (w.drop 3).toString.toNat? else none) with
@@ -247,7 +251,13 @@ def stepEon (d : EonD) (ws : List String) : EonD × String :=
     if harnessRefused then run (d.sts.map fun s => (s, [])) d
     else
       match parseStim d rest with
-      | some (stim, d') => run (d.sts.map fun s => applyStim s stim) d'
+      | some (stim, d') =>
+        let d' := match stim with
+          | .reg n =>
+            if d.sts.any (fun s => s.devs.any fun x => x.name == n && x.pc != .done)
+            then { d' with overlap := n :: d'.overlap } else d'
+          | _ => d'
+        run (d.sts.map fun s => applyStim s stim) d'
       | none => if rest.head? = some "rule" then run (d.sts.map fun s => (s, [])) d else (d, "bad-op")
   | _ => (d, "bad-op")
 
